@@ -58,6 +58,7 @@ type Result struct {
 	Mismatches  []Mismatch    `json:"mismatches"`
 	MismatchN   int           `json:"mismatch_count"`
 	IrrelevantN int           `json:"mismatches_in_operations_of_other_properties"`
+	OutsideN    int           `json:"documents_outside_the_modelled_fragment_not_compared"`
 	Violations  []Violation   `json:"violations"`
 	ViolationN  int           `json:"violation_count"`
 	DriverErr   string        `json:"driver_error,omitempty"`
@@ -130,6 +131,12 @@ func startDriver(path string, res *Result) (*driver, error) {
 			lean := d.out.Text()
 			if p.op == "case" {
 				poisoned = false
+			}
+			if lean == "outside" {
+				// a JSON document outside the canonical fragment the decoders are modelled on: the model
+				// makes no claim, nothing is compared
+				d.res.OutsideN++
+				continue
 			}
 			isSpec := strings.HasPrefix(p.op, "sq spec") || strings.HasPrefix(p.op, "spec ")
 			if lean != p.goOut && isSpec {
@@ -335,7 +342,7 @@ var propStreams = map[string][]string{
 	"C16": {"MALFORMED"},
 	"C17": {"ALIAS"},
 	"C18": {"NS"},
-	"C19": {"PROTO"},
+	"C19": {"PROTO", "JSON"},
 	"C20": {"RANGE", "BUILDER"},
 }
 
@@ -360,7 +367,7 @@ var propOps = map[string][]string{
 	"C16": {},
 	"C17": {},
 	"C18": {"ns "},
-	"C19": {"proto "},
+	"C19": {"proto ", "json "},
 	"C20": {"sh range", "sh parseshares", "sh seqraw"},
 }
 
